@@ -116,8 +116,8 @@ def run(ctx):
     ctx.coq_props()
     rng = ctx.rng
     quick = ctx.tier == "quick"
-    nfake = 240 if quick else 3000
-    ne2e = 38 if quick else 570
+    nfake = 220 if quick else 2400
+    ne2e = 38 if quick else 380
     cases = [dict(c) for c in CORPUS_FAKE]
     while len(cases) < nfake:
         nw = rng.choice([1, 2, 2, 3, 3, 4])
